@@ -298,7 +298,16 @@ func runX5(p *an.Prog, r *an.Result) {
 		r.Bad("-", "ApplyFilter not found", token.NoPos, "anchor not resolved")
 	} else {
 		good := false
-		an.EachInstr(af, func(in ssa.Instruction) {
+		var unitInstrs []ssa.Instruction
+		for _, uf := range unitWithHelpers(p, af) {
+			an.EachInstr(uf, func(in ssa.Instruction) { unitInstrs = append(unitInstrs, in) })
+		}
+		eachUnitInstr := func(_ *ssa.Function, f func(ssa.Instruction)) {
+			for _, in := range unitInstrs {
+				f(in)
+			}
+		}
+		eachUnitInstr(af, func(in ssa.Instruction) {
 			lk, ok := in.(*ssa.Lookup)
 			if !ok || !lk.CommaOk || !strings.HasSuffix(describe(p, lk.X), ".filters") || lk.Referrers() == nil {
 				return
